@@ -491,6 +491,39 @@ pub fn generate(tier: &str, seed: u64, only: Option<&str>) -> Vec<Case> {
         }
     }
 
+    // (b3) big bursts: 8..40 frames of 0.3..3 KiB (16..56 KiB in total, below the hook's 64 KiB limit) that are all
+    // available at once or in two or three large pieces, read with large reads, after which the peer stays silent
+    // (or closes): every frame must still come out, although tens of KiB were consumed from one buffered batch.
+    let nburst = if thorough { 60 } else { 6 };
+    for kind in &kinds {
+        for i in 0..nburst {
+            let mut frames = vec![];
+            let mut total = 0usize;
+            let target = rng.range(17_000, 56_000);
+            while total < target && frames.len() < 60 {
+                let len = if rng.chance(1, 5) { rng.range(20, 200) } else { rng.range(300, 3000) };
+                if total + len + 1 > 60_000 {
+                    break;
+                }
+                frames.push(run_frame(kind, len, b'a' + ((i + frames.len()) % 26) as u8));
+                total += len + 1;
+            }
+            let stream = stream_of(&frames);
+            let ncuts = rng.below(3);
+            let mut cuts: Vec<usize> = (0..ncuts).map(|_| rng.range(1, stream.len() - 1)).collect();
+            cuts.sort();
+            cuts.dedup();
+            let sizes = if rng.chance(2, 3) { vec![] } else { vec![rng.range(1000, 9000); 200] };
+            let mode = if rng.chance(1, 4) { 3 } else { 1 };
+            let mut evs = events_for(&stream, &cuts, mode, frames.len(), &mut rng);
+            if rng.chance(1, 2) {
+                // the peer stays silent instead of closing: the trailing polls hand out the frames, then stay pending
+                evs.retain(|e| !matches!(e, Ev::Close));
+            }
+            cases.push(Case { kind: kind.to_string(), frames, sizes, evs });
+        }
+    }
+
     // (c) random bursts of 1..6 frames, random cuts, random read sizes, random poll patterns.
     let nrand = if thorough { 4000 } else { 250 };
     for kind in &kinds {
